@@ -45,8 +45,8 @@ CLAIMS = {
         "sets. Trusted: Lean kernel, hand model validated by correspondence, harness.",
    design="§3 C11"),
  "C01": dict(
-   engine="persist",
-   technique="Lean 4 proof (disk invariant preserved by every logical action of every operation => every kill point recovers) + kill-point correspondence against the real recover",
+   engine="persist+periodic",
+   technique="Lean 4 proof (disk invariant preserved by every logical action of every operation => every kill point recovers) + kill-point and power-loss enumeration against the real recover + periodic-fsync clause with the server's timer calls extracted from source",
    text="Theorem C01_kill_point: after ANY history (inserts, overwrites, deletes, metadata updates, manual/automatic snapshots, "
         "rotation, segment compaction, restarts), killing the process after ANY prefix of the next operation's file-system actions "
         "(start-up included) leaves a directory whose strict recovery succeeds and yields the acknowledged documents or those plus "
@@ -54,10 +54,16 @@ CLAIMS = {
         "the batch (known finding). Tie: the harness logs every libc file-system effect of the real backend, materialises the "
         "directory at every effect boundary and at torn prefixes of frame writes (~12k kill points per quick run), runs the real "
         "strict recover on each and compares with the model's recovery of the corresponding action prefix; oracle = acked / "
-        "acked+in-flight. One genuine defect found and repaired (fix 89a0367).",
+        "acked+in-flight. POWER LOSS (fsync-every-write): at the same instants, in a third of the histories, every directory a power "
+        "failure may leave (per file the bytes of its last fsync or all, every prefix of the un-synced directory changes; ~5.5k "
+        "directories per quick run) is recovered by the real code under the same oracle. PERIODIC clause: the calls the server's "
+        "periodic task makes are extracted from kyrodb_server.rs on every run (translators/xlate_timer.py) and replayed under a "
+        "virtual clock on an engine with FsyncPolicy::Periodic; every power-loss directory must contain every operation acknowledged "
+        "more than one interval earlier. Two genuine defects found and repaired (fixes 89a0367, be0c955).",
    note="Proved for the process-kill model at logical-action granularity; torn-frame invisibility and atomic publication are "
-        "byte/OS-level facts validated by the enumeration. Power loss under fsync-always and the periodic-fsync clause are not "
-        "covered by the theorem (DESIGN.md). Trusted: Lean kernel, hand model validated by correspondence, FS shim.",
+        "byte/OS-level facts validated by the enumeration. The power-loss model and the periodic clause are decided by enumeration "
+        "over generated histories, not by a theorem (whole-file granularity for un-synced bytes). Trusted: Lean kernel, hand model "
+        "validated by correspondence, FS shim, timer translator (fails closed on an unknown engine call).",
    design="§3 C01"),
  "C02": dict(
    engine="persist",
@@ -177,8 +183,8 @@ CLAIMS = {
         "dimension only (I/O failure paths: C03). One defect found and repaired (fix 9bf38f7).",
    design="§3 C14"),
  "C13": dict(
-   engine="persist+codec",
-   technique="Lean 4 proof (per fault class over every history; byte-level scanner lemmas; refutation of the full statement by witnesses) + differential correspondence on enumerated single faults",
+   engine="persist+codec+rpc",
+   technique="Lean 4 proof (per fault class over every history; byte-level scanner lemmas; refutation of the full statement by witnesses) + differential correspondence on enumerated single faults + start-up faults through the real server binary",
    text="Theorems over any directory reachable by any history (DInv): C13_manifest_removed/_unparsable, C13_listed_segment_removed, "
         "_unopenable, _corrupt_frames (refused); C13_unlisted_segment_harmless, C13_unpointed_snapshot_harmless (recovery reads "
         "nothing else); C13_pointed_snapshot_no_fallback; C13_partial(+_reachable) combining them. The full statement is FALSE: "
@@ -187,11 +193,12 @@ CLAIMS = {
         "C13_truncation_reads_clean (any cut length), C13_checksum_mismatch_counted, C13_length_past_eof_silent. Tie: ~14k (quick) "
         "enumerated faults (removal, truncation, bit flips per structural field) on directories from random histories: the real "
         "readers' view of the damaged file feeds the model, real strict recover vs recoverAfter; 1.7k damaged byte strings real "
-        "WalReader vs Codec.readFile with CRC-32 computed in Lean.",
-   note="Partial, with three known findings (KF-C13-wal-silent-prefix, KF-C13-snapshot-fallback, KF-C13-manifest-unchecksummed: "
-        "format-level, not small patches). Not proved: CRC-32 detects every single-bit flip (polynomial fact; every enumerated flip "
-        "is checked); bincode decoding; snapshot byte layout (exercised, not modelled); the server binary's start-up wrapper "
-        "(a removed MANIFEST makes the server initialise an empty database - engine-level recover refuses; see DESIGN).",
+        "WalReader vs Codec.readFile with CRC-32 computed in Lean. Through the REAL server binary: histories with restarts, a clean "
+        "stop, one fault (removal / truncation / first-byte flip of MANIFEST, segments, snapshots), start: refused or the same "
+        "census (found and repaired: a removed MANIFEST made the server start EMPTY, fix 68e5505).",
+   note="Partial, with four known findings (KF-C13-wal-silent-prefix, -wal-length-field, -snapshot-fallback, "
+        "-manifest-unchecksummed: format-level, not small patches). Not proved: CRC-32 detects every single-bit flip (polynomial "
+        "fact; every enumerated flip is checked); bincode decoding; snapshot byte layout (exercised, not modelled).",
    design="§3 C13"),
  "C12": dict(
    engine="persist",
@@ -268,10 +275,12 @@ CLAIMS = {
         "C05_two_observation_read_tears (witness of the repaired defect), C05_one_observation_read_is_a_state, C05_paired_by_token. "
         "Search: two threads (writer: insert/overwrite/delete/metadata update; reader: point / cache-aware / with-metadata / bulk / "
         "exists) on a cold-only and a hot+cold document, DFS over schedules with preemption bound 2; three threads with random "
-        "schedules; every distinct history checked (Wing-Gong) against the per-document register specification.",
+        "schedules; every distinct history checked (Wing-Gong) against the per-document register specification. The same through "
+        "the RPC layer: the real Query / Insert / Delete / UpdateMetadata handlers (build-time copy of kyrodb_server.rs) under the "
+        "scheduler.",
    note="Partial: the theorems carry the linearisation argument, the executions are decided by the search (bounded preemptions / "
-        "sampled), at lock-acquisition granularity. One defect fixed (2ef43c1 torn read), one known finding "
-        "(KF-C05-drain-resurrects-deleted). The server binary's query RPC assembles vector and metadata separately too (not driven here).",
+        "sampled), at lock-acquisition granularity. Two defects fixed (2ef43c1 torn read in the engine API, 83801c6 torn read in the "
+        "Query RPC handler), one known finding (KF-C05-drain-resurrects-deleted).",
    design="§3 C05"),
  "C09": dict(
    engine="conc",
